@@ -108,6 +108,9 @@ def answer (line : String) : String :=
       -- hypothesis of the end-to-end theorem `ios_F2_converges_partial` (NA.F2.wfB)
       "wf=" ++ (if wfB a b sc then "1" else "0"),
       "wfwhy=" ++ wfWhy a b sc,
+      -- hypothesis of `ios_F2_quiet`: the device is statically settled
+      "settled=" ++ (if settledB a b sc then "1" else "0"),
+      "settledwhy=" ++ settledWhy a b sc,
       "final=" ++ NA.IosDev2.dump ex.1]
 
 end NA.Drv.C02
